@@ -495,4 +495,184 @@ theorem residual_transmitted (x : Label → Rat) (nt : Nat) (v : List Rat) (hv :
       sumN_congr _ _ _ (fun i hi => by rw [hx i hi])
     rw [this]; grind
 
+/-! ## anti-crossing loops: the coefficients after the `set_quadratic` / `add_linear` / `set_linear` calls -/
+
+/-- the same unordered pair -/
+def samePair (u v u' v' : Label) : Bool := (decide (u = u') && decide (v = v')) || (decide (u = v') && decide (v = u'))
+
+theorem lookupPair_setPair (m : List ((Label × Label) × Rat)) (u v u' v' : Label) (c : Rat) :
+    Bq.lookupPair (Bq.setPair m u v c) u' v' = if samePair u v u' v' = true then c else Bq.lookupPair m u' v' := by
+  induction m with
+  | nil =>
+    simp only [Bq.setPair, Bq.lookupPair, samePair, Bool.or_eq_true, Bool.and_eq_true, decide_eq_true_eq]
+  | cons e m ih =>
+    rcases e with ⟨⟨a, b⟩, c'⟩
+    simp only [Bq.setPair, samePair, Bool.or_eq_true, Bool.and_eq_true, decide_eq_true_eq] at ih ⊢
+    split
+    · simp only [Bq.lookupPair]; split <;> split <;> grind
+    · simp only [Bq.lookupPair, ih]; split <;> split <;> grind
+
+/-- the pairs written by `set_quadratic`, in order -/
+def pairsOf : List SetOp → List (Label × Label)
+  | [] => []
+  | .setQuad u v _ :: os => (u, v) :: pairsOf os
+  | _ :: os => pairsOf os
+
+/-- only `set_quadratic(u, v, -1)` with `u ≠ v`, `add_linear`, `set_linear` -/
+def NegSets : List SetOp → Prop
+  | [] => True
+  | .setQuad u v c :: os => u ≠ v ∧ c = -1 ∧ NegSets os
+  | .addQuad _ _ _ :: _ => False
+  | _ :: os => NegSets os
+
+theorem lookupPair_runOps (ops : List SetOp) (h : NegSets ops) (u' v' : Label) : ∀ b : Bq Label,
+    Bq.lookupPair (runOps b ops).quad u' v'
+      = if (pairsOf ops).any (fun p => samePair p.1 p.2 u' v') = true then -1 else Bq.lookupPair b.quad u' v' := by
+  induction ops with
+  | nil => intro b; simp [runOps, pairsOf]
+  | cons o os ih =>
+    intro b
+    cases o with
+    | addQuad u v c => simp [NegSets] at h
+    | setQuad u v c =>
+      simp only [NegSets] at h
+      obtain ⟨hne, hc, hos⟩ := h
+      subst hc
+      simp only [runOps, pairsOf, List.any_cons, Bool.or_eq_true]
+      rw [ih hos]
+      simp only [SetOp.run, Bq.setQuadratic, hne, if_false, lookupPair_setPair]
+      split <;> split <;> simp_all
+    | addLin v c => simp only [NegSets] at h; simp only [runOps, pairsOf]; rw [ih h]; rfl
+    | setLin v c => simp only [NegSets] at h; simp only [runOps, pairsOf]; rw [ih h]; rfl
+
+theorem lookupKey_setKey (m : List (Label × Rat)) (k k' : Label) (c : Rat) :
+    Bq.lookupKey (Bq.setKey m k c) k' = if k = k' then c else Bq.lookupKey m k' := by
+  induction m with
+  | nil => simp only [Bq.setKey, Bq.lookupKey]
+  | cons e m ih =>
+    rcases e with ⟨a, ca⟩
+    simp only [Bq.setKey]
+    split
+    · simp only [Bq.lookupKey]; grind
+    · simp only [Bq.lookupKey, ih]; grind
+
+/-- the linear bias the `add_linear` calls add to `k` -/
+def linAdd (k : Label) : List SetOp → Rat
+  | [] => 0
+  | .addLin v c :: os => (if v = k then c else 0) + linAdd k os
+  | _ :: os => linAdd k os
+
+/-- no `set_linear`, no `add_quadratic`, `set_quadratic` only between different variables -/
+def NoSetLin : List SetOp → Prop
+  | [] => True
+  | .setLin _ _ :: _ => False
+  | .addQuad _ _ _ :: _ => False
+  | .setQuad u v _ :: os => u ≠ v ∧ NoSetLin os
+  | _ :: os => NoSetLin os
+
+theorem lookupKey_runOps (ops : List SetOp) (h : NoSetLin ops) (k : Label) : ∀ b : Bq Label,
+    Bq.lookupKey (runOps b ops).lin k = Bq.lookupKey b.lin k + linAdd k ops := by
+  induction ops with
+  | nil => intro b; simp only [runOps, linAdd]; grind
+  | cons o os ih =>
+    intro b
+    cases o with
+    | addQuad u v c => simp [NoSetLin] at h
+    | setLin v c => simp [NoSetLin] at h
+    | setQuad u v c =>
+      simp only [NoSetLin] at h
+      simp only [runOps, linAdd]; rw [ih h.2]
+      simp only [SetOp.run, Bq.setQuadratic, h.1, if_false, Bq.addLinear, lookup_addKey]; split <;> split <;> grind
+    | addLin v c =>
+      simp only [NoSetLin] at h
+      simp only [runOps, linAdd]; rw [ih h]
+      simp only [SetOp.run, Bq.addLinear, lookup_addKey]; grind
+
+theorem runOps_append (a b : List SetOp) : ∀ s : Bq Label, runOps s (a ++ b) = runOps (runOps s a) b := by
+  induction a with
+  | nil => intro s; rfl
+  | cons o os ih => intro s; simp only [List.cons_append, runOps, ih]
+
+theorem linAdd_append (k : Label) (a b : List SetOp) : linAdd k (a ++ b) = linAdd k a + linAdd k b := by
+  induction a with
+  | nil => simp only [List.nil_append, linAdd]; grind
+  | cons o os ih => cases o <;> simp only [List.cons_append, linAdd, ih] <;> grind
+
+theorem linAdd_rangeFlatMap (k : Label) (n : Nat) (g : Nat → List SetOp) :
+    linAdd k ((List.range n).flatMap g) = sumN n (fun i => linAdd k (g i)) := by
+  induction n with
+  | zero => rfl
+  | succ m ih => rw [List.range_succ, List.flatMap_append, linAdd_append, ih]; simp only [List.flatMap_cons, List.flatMap_nil, List.append_nil, sumN]
+
+theorem sumN_indicator (N a k : Nat) :
+    sumN N (fun n => if n + a = k then (1 : Rat) else 0) = if a ≤ k ∧ k < a + N then 1 else 0 := by
+  induction N with
+  | zero => simp only [sumN]; split <;> first | omega | rfl
+  | succ m ih =>
+    simp only [sumN, ih]
+    by_cases h1 : m + a = k
+    · have : ¬ (a ≤ k ∧ k < a + m) := by omega
+      have h2 : (a ≤ k ∧ k < a + (m + 1)) := by omega
+      simp only [h1, this, h2, if_true, if_false, and_self]; grind
+    · by_cases h2 : a ≤ k ∧ k < a + m
+      · have : (a ≤ k ∧ k < a + (m + 1)) := by omega
+        simp only [h1, h2, this, if_true, if_false, and_self]; grind
+      · have : ¬ (a ≤ k ∧ k < a + (m + 1)) := by omega
+        simp only [h1, h2, this, if_false]; grind
+
+theorem NegSets_append (a b : List SetOp) (ha : NegSets a) (hb : NegSets b) : NegSets (a ++ b) := by
+  induction a with
+  | nil => exact hb
+  | cons o os ih => cases o <;> simp only [List.cons_append, NegSets] at ha ⊢ <;> first | exact ih ha | exact ⟨ha.1, ha.2.1, ih ha.2.2⟩ | exact ha
+
+theorem NoSetLin_append (a b : List SetOp) (ha : NoSetLin a) (hb : NoSetLin b) : NoSetLin (a ++ b) := by
+  induction a with
+  | nil => exact hb
+  | cons o os ih => cases o <;> simp only [List.cons_append, NoSetLin] at ha ⊢ <;> first | exact ih ha | exact ⟨ha.1, ih ha.2⟩ | exact ha
+
+theorem acLoopsRows_ok (hf : Nat) (h : 2 ≤ hf) (l : List Nat) (hl : ∀ n ∈ l, n < hf) :
+    NegSets (l.flatMap (acLoopsRow hf)) ∧ NoSetLin (l.flatMap (acLoopsRow hf)) := by
+  induction l with
+  | nil => exact ⟨trivial, trivial⟩
+  | cons n r ih =>
+    have ih' := ih (fun m hm => hl m (List.mem_cons_of_mem _ hm))
+    have hn := hl n List.mem_cons_self
+    have hmod : (n + 1) % hf < hf := Nat.mod_lt _ (by omega)
+    have hne : (n + 1) % hf ≠ n := by
+      by_cases hlast : n + 1 = hf
+      · rw [hlast, Nat.mod_self]; omega
+      · rw [Nat.mod_eq_of_lt (by omega)]; omega
+    have row : NegSets (acLoopsRow hf n) ∧ NoSetLin (acLoopsRow hf n) := by
+      unfold acLoopsRow
+      by_cases hodd : n % 2 = 1
+      · simp only [hodd, if_true, List.cons_append, List.nil_append, NegSets, NoSetLin, iv_inj, ne_eq]
+        refine ⟨?_, ?_⟩ <;> (repeat' constructor) <;> first | trivial | omega
+      · simp only [hodd, if_false, List.nil_append, NegSets, NoSetLin, iv_inj, ne_eq]
+        refine ⟨?_, ?_⟩ <;> (repeat' constructor) <;> first | trivial | omega
+    simp only [List.flatMap_cons]
+    exact ⟨NegSets_append _ _ row.1 ih'.1, NoSetLin_append _ _ row.2 ih'.2⟩
+
+theorem linAdd_acLoopsRow (hf n k : Nat) :
+    linAdd (iv k) (acLoopsRow hf n)
+      = (if n + 0 = k then (1 : Rat) else 0) + (if n + hf = k then 1 else 0)
+        + (-1) * (if n + 2 * hf = k then 1 else 0) + (-1) * (if n + 3 * hf = k then 1 else 0) := by
+  unfold acLoopsRow
+  split <;> simp only [List.cons_append, List.nil_append, linAdd, iv_inj, Nat.add_zero] <;> (repeat' split) <;> grind
+
+theorem pairsOf_append (a b : List SetOp) : pairsOf (a ++ b) = pairsOf a ++ pairsOf b := by
+  induction a with
+  | nil => rfl
+  | cons o os ih => cases o <;> simp only [List.cons_append, pairsOf, ih]
+
+theorem pairsOf_flatMap (l : List Nat) (g : Nat → List SetOp) : pairsOf (l.flatMap g) = l.flatMap (fun n => pairsOf (g n)) := by
+  induction l with
+  | nil => rfl
+  | cons n r ih => simp only [List.flatMap_cons, pairsOf_append, ih]
+
+theorem pairsOf_acLoopsRow (hf n : Nat) :
+    pairsOf (acLoopsRow hf n)
+      = (if n % 2 = 1 then [(iv n, iv (n + hf))] else [])
+        ++ [(iv n, iv ((n + 1) % hf)), (iv (n + hf), iv ((n + 1) % hf + hf)), (iv n, iv (n + 2 * hf)), (iv (n + hf), iv (n + 3 * hf))] := by
+  unfold acLoopsRow; split <;> rfl
+
 end Gen
